@@ -318,9 +318,12 @@ inductive WriteWhy where
   /-- lazily creates the member on first use; the property excludes lazily indexed objects unless built before sharing, and
       once the member exists the function takes the branch that does not write -/
   | lazyBuildExcluded
-  /-- per-call state kept in the shared object: REAL unsynchronised writes on the unchanged tree (known finding
-      `scenario-fails/sharedprep`: concurrent `intersects(areal/lineal)` on one prepared polygon crashes; the same cells are
-      written — harmlessly, there being no segments — by `containsProperly(point)`, as ThreadSanitizer shows) -/
+  /-- per-call state kept in the object by the NON-re-entrant `process(segStrings)` / `setSegmentIntersector`.  Until /repo
+      commit "fix: FastSegmentSetIntersectionFinder must not keep per-call state in the shared intersector" the prepared
+      geometries called these on their shared intersector (finding `scenario-fails/sharedprep`: concurrent
+      `intersects(areal/lineal)` on one prepared polygon crashed); since then `FastSegmentSetIntersectionFinder` builds the
+      index in its constructor (`buildIndex`) and queries through the re-entrant `process(segStrings, si)`, which writes no
+      member.  The functions still exist for single-threaded users (`SegmentSetMutualIntersector` API), hence the entries. -/
   | knownRace
   /-- member of a helper object created per call (iterators), never part of a shared object -/
   | perCallObject
@@ -333,8 +336,8 @@ def allowedWriters : List (String × List String × WriteWhy) := [
   ("FacetSequence::env", ["computeEnvelope"], .buildPhase),
   ("IndexedPointInAreaLocator::index", ["buildIndex"], .lazyBuildExcluded),
   ("IndexedPointInAreaLocator::IntervalIndexedGeometry::index", ["addLine", "init"], .buildPhase),
-  ("MCIndexSegmentSetMutualIntersector::index", ["process"], .lazyBuildExcluded),
-  ("MCIndexSegmentSetMutualIntersector::indexBuilt", ["process"], .lazyBuildExcluded),
+  ("MCIndexSegmentSetMutualIntersector::index", ["buildIndex", "process"], .lazyBuildExcluded),
+  ("MCIndexSegmentSetMutualIntersector::indexBuilt", ["buildIndex", "process"], .lazyBuildExcluded),
   ("MCIndexSegmentSetMutualIntersector::monoChains", ["addToMonoChains", "process"], .knownRace),
   ("MCIndexSegmentSetMutualIntersector::nOverlaps", ["intersectChains", "process"], .knownRace),
   ("MCIndexSegmentSetMutualIntersector::processCounter", ["process"], .knownRace),
